@@ -60,6 +60,14 @@ func sign(r io.Reader, cert *certloader.Certificate, opts signers.SignOpts) ([]b
 	if err := sig.SetContentInfo(oldpsd.Content.ContentInfo); err != nil {
 		return nil, err
 	}
+	// the content is not id-data, so authenticated attributes (content type,
+	// message digest) are mandatory; add the usual Authenticode ones
+	if err := sig.AddAuthenticatedAttribute(authenticode.OidSpcStatementType, authenticode.SpcSpStatementType{Type: authenticode.OidSpcIndividualPurpose}); err != nil {
+		return nil, err
+	}
+	if err := sig.AddAuthenticatedAttribute(authenticode.OidSpcSpOpusInfo, authenticode.SpcSpOpusInfo{}); err != nil {
+		return nil, err
+	}
 	newpsd, err := sig.Sign()
 	if err != nil {
 		return nil, err
